@@ -97,6 +97,42 @@ func runValOps(payload []*Sx) *Sx {
 			consistent = false
 		}
 	}
+	// every byte-slice accessor of every value: scribbling over what it returned must not change the value (or any equal one)
+	scribble := func(b []byte) {
+		for i := range b {
+			b[i] = 'X'
+		}
+	}
+	all := append(append([]types.Value{types.True, types.False, s}, valuesFrom(payload[0])...), probes...)
+	for _, v := range all {
+		c0 := string(v.MarshalCedar())
+		st0 := v.String()
+		scribble(v.MarshalCedar())
+		if mj, ok := v.(interface{ MarshalJSON() ([]byte, error) }); ok {
+			j0, _ := mj.MarshalJSON()
+			js := string(j0)
+			scribble(j0)
+			j1, _ := mj.MarshalJSON()
+			if string(j1) != js {
+				immut = false
+			}
+		}
+		if ej, ok := v.(interface{ ExplicitMarshalJSON() ([]byte, error) }); ok {
+			j0, _ := ej.ExplicitMarshalJSON()
+			js := string(j0)
+			scribble(j0)
+			j1, _ := ej.ExplicitMarshalJSON()
+			if string(j1) != js {
+				immut = false
+			}
+		}
+		if string(v.MarshalCedar()) != c0 || v.String() != st0 {
+			immut = false
+		}
+	}
+	if string(types.True.MarshalCedar()) != "true" || string(types.False.MarshalCedar()) != "false" || types.Long(7).String() != "7" {
+		immut = false
+	}
 	return L(L(A("len"), AI(s.Len())), contains, L(A("eqrev"), bit(s.Equal(srev) && srev.Equal(s))), L(A("eqdup"), bit(s.Equal(sdup) && sdup.Equal(s))),
 		eqm, L(A("consistent"), bit(consistent)), L(A("immutable"), bit(immut)))
 }
